@@ -9,7 +9,7 @@ D=$(mktemp -d /tmp/verif-mut.XXXXXX)
 rsync -a --exclude .git /repo/ "$D/"
 if ! (cd "$D" && patch -p1 -s < "$PATCH"); then echo "PATCH-FAILED $PATCH"; rm -rf "$D"; exit 3; fi
 (cd "$D" && go build ./... 2>&1 | head -5)
-/verif/bin/iplcheck -repo "$D" -property "$PROPS" -evidence-dir "$D/.ev" -known /verif/known-findings.json -controls '' 2>&1 | grep -v "^VIOLATION" | sed "s#$D/##g"
+${IPLCHECK:-/verif/bin/iplcheck} -repo "$D" -property "$PROPS" -evidence-dir "$D/.ev" -known /verif/known-findings.json -controls '' 2>&1 | grep -v "^VIOLATION" | sed "s#$D/##g"
 rc=$?
 rm -rf "$D"
 exit 0
